@@ -94,7 +94,7 @@ CHECKS = {
         # c20d: where the NTP request goes after the exchange (fixed ports on loopback: one process only)
         "parts": [{"pkg": "c20"}, {"pkg": "c20d", "shards": 1}, {"pkg": "c20q", "shards": 1}],
         "rule": "rapid state machine of FetchData calls on the real fetcher against a scripted TLS key-exchange server; truncation sweep.",
-        "assumptions": ["TLS 1.3 with a run-time self-signed certificate and InsecureSkipVerify (certificate validation is configuration of the callers)", "AEAD records carry one algorithm id; warning records are not judged (a client may treat them as errors)", "QUIC/SCION transport of the key exchange is not exercised"],
+        "assumptions": ["TLS 1.3 with a run-time self-signed certificate and InsecureSkipVerify (certificate validation is configuration of the callers)", "AEAD records carry one algorithm id; warning records are not judged (a client may treat them as errors)", "QUIC/SCION transport of the key exchange is exercised on loopback within one AS only (empty path, no daemon)"],
         "timeout_quick": 600, "timeout_thorough": 2400,
     },
     "C11": {
